@@ -543,7 +543,8 @@ func (d *c17Daemon) step(id string, r *rand.Rand) bool {
 			resp = d.command(requester, "/localhost/nfd", "strategy-choice", "set", &cp, 3*time.Second)
 		case 5:
 			cls = "unknown-strategy"
-			sn, _ := enc.NameFromStr([]string{"/localhost/nfd/strategy/nonexistent", "/some/other/name", "/localhost/nfd/strategy/multicast/v=99", "/localhost/nfd/strategy/multicast/notaversion"}[r.Intn(4)])
+			sn, _ := enc.NameFromStr([]string{"/localhost/nfd/strategy/nonexistent", "/some/other/name", "/localhost/nfd/strategy/multicast/v=99", "/localhost/nfd/strategy/multicast/notaversion",
+				"/localhost/nfd/strategy/best-route/v=0", "/localhost/nfd/strategy/multicast/v=0", "/localhost/nfd/strategy/best-route/v=2", "/localhost/nfd/strategy/best-route/v=18446744073709551615"}[r.Intn(8)])
 			cp := c17Params(&mgmt.ControlArgs{Name: n, Strategy: &mgmt.Strategy{Name: sn}})
 			d.log = append(d.log, fmt.Sprintf("%s: strategy-choice/set %s", id, sn))
 			resp = d.command(requester, "/localhost/nfd", "strategy-choice", "set", &cp, 3*time.Second)
